@@ -408,7 +408,7 @@ func frameWitness(fs []frame) []map[string]interface{} {
 }
 
 func mconnGroup(r *core.Run) {
-	r.Cases("mconn", r.N(16, 320), childOpts, func(c *core.Case) {
+	r.Cases("mconn", r.N(16, 640), childOpts, func(c *core.Case) {
 		e, err := NewEnv("syncing", 2)
 		if err != nil {
 			r.Inconclusive("environment: " + err.Error())
